@@ -8,7 +8,8 @@ from ..val import veq, clone, strings_of, walk
 
 ID = 'C11'
 NEED_BINS = False
-SIZES = {'quick': 6000, 'thorough': 400000}
+SIZES = {'quick': 6000, 'thorough': 1500000}
+REQUIRED_EVENTS = ['outputs_agreed']
 RULE = ('fixed part: every ordered tree shape with up to 4 (thorough: 5) containers x every assignment map/list x every assignment of '
         '{unmarked, $output:true, $output:false} to the containers (maps carry the marker as a key, lists as a marker entry; a map that is a '
         'direct list entry is never marked - not judged, see DESIGN.md); random part: larger random trees and 1-3 document streams. Every '
